@@ -234,7 +234,9 @@ class C01(Check):
             'polyglot / unstructured) x K chunk schedules (whole, uniform, '
             'cuts at +-1 of structure boundaries, 1-byte windows, random, '
             'mixed; empty chunks; query plans; inspector order), each run '
-            'through bare inspectors or InspectWrapper (iterator / read()); '
+            'through bare inspectors or InspectWrapper (iterator / read()); in '
+            'a fifth of the runs a second stream is inspected at the same '
+            'time, interleaved chunk by chunk by the seeded scheduler; '
             'the first runs of a batch are the engine sweep (every chunking '
             'of a tiny stream for one region configuration). distinct = '
             'distinct (layout, content class, boundary-relative schedule '
@@ -253,7 +255,8 @@ class C01(Check):
         'a clean batch is evidence, not proof: schedules x contents are '
         'sampled',
     ]
-    FAULT_KINDS = ('empty_chunk', 'short_read', 'truncated_stream',
+    FAULT_KINDS = ('empty_chunk', 'short_read', 'concurrent_stream',
+                   'truncated_stream',
                    'field_mutation',
                    'inspector_error_genuine', 'query_mid_stream',
                    'trailing_data')
@@ -298,7 +301,23 @@ class C01(Check):
             if qrng.random() < (0.7 if fam == 'boundary' else 0.4):
                 s['q'] = gen_qplan(qrng, streams.n_chunks(r))
             scheds.append(s)
-        return {'content': rec, 'cls': cls, 'scheds': scheds}
+        case = {'content': rec, 'cls': cls, 'scheds': scheds}
+        mrng = st('mix')
+        if mrng.random() < 0.2:
+            # a second stream inspected in the same process at the same time
+            # (a service handles many uploads at once): neither verdict may
+            # depend on the other stream
+            cls2, rec2 = G.gen_content(mrng)
+            d2, i2 = F.build(rec2)
+            name2, r2 = streams.gen_schedule(mrng, len(d2), i2['boundaries'],
+                                             max_chunks=400)
+            case['other'] = {
+                'content': rec2, 'rle': r2,
+                'via': mrng.choice(('bare', 'bare', 'wrapper')),
+                'pattern': mrng.choice(('a_then_b', 'b_then_a', 'alternate',
+                                        'random', 'random')),
+                'seed': mrng.randrange(1 << 30)}
+        return case
 
     # -------------------------------------------------------------- execute
     def execute(self, case):
@@ -374,6 +393,8 @@ class C01(Check):
             if nontrivial:
                 stats['distinct'].append(core._h64(core.canon(
                     [info['layout'], case.get('cls'), sig])))
+        if case.get('other') and results:
+            viols.extend(self._mixed(case, data, results, log, bump, fa))
         # probes on the first result
         per0 = results[0]['per'] if results else {}
         for nm, v in per0.items():
@@ -401,6 +422,131 @@ class C01(Check):
             uniq.append(v)
         stats['faulty'] = bool(fa)
         return {'violations': uniq, 'digest': log.digest(), 'stats': stats}
+
+    # ------------------------------------------------ two streams at once
+    def _mixed(self, case, data_a, results, log, bump, fa):
+        import random
+        o = case['other']
+        data_b, _ib = F.build(o['content'])
+        # schedule of A: the cheapest of its schedules with < 400 chunks
+        sa = None
+        for s in case['scheds']:
+            if streams.n_chunks(s['rle']) <= 400:
+                sa = s
+                break
+        if sa is None:
+            return []
+        sizes_a = streams.expand(sa['rle'])
+        sizes_b = streams.expand(o['rle'])
+        via = o['via']
+        m = imgsim.fi()
+        bump(fa, 'concurrent_stream')
+
+        def solo(data, sizes):
+            if via == 'bare':
+                return {nm: imgsim.drive_bare(nm, data, sizes,
+                                              watch_regions=False)['verdict']
+                        for nm in F.FORMATS}
+            r = imgsim.drive_wrapper(data, sizes, 'iter',
+                                     order=list(F.FORMATS),
+                                     watch_regions=False)
+            d = dict(r['per'])
+            d['wrapper'] = {o_: None for o_ in OBS}
+            d['wrapper']['format_match'] = r['format']
+            d['wrapper']['safety_detail'] = None
+            return d
+        solo_a = solo(data_a, sizes_a)
+        solo_b = solo(data_b, sizes_b)
+
+        class Stream:
+            def __init__(self, data, sizes):
+                self.data, self.sizes, self.pos, self.k = data, sizes, 0, 0
+                if via == 'bare':
+                    self.insps = {nm: m.ALL_FORMATS[nm]() for nm in F.FORMATS}
+                    self.err = set()
+                else:
+                    self.src = streams.SimSource(data, list(sizes))
+                    self.w = m.InspectWrapper(self.src)
+                    imgsim.order_inspectors(self.w, list(F.FORMATS))
+                self.done = False
+
+            def step(self):
+                if via == 'bare':
+                    if self.k >= len(self.sizes):
+                        for i in self.insps.values():
+                            i.finish()
+                        self.done = True
+                        return
+                    n_ = self.sizes[self.k]
+                    chunk = self.data[self.pos:self.pos + n_]
+                    self.pos += n_
+                    self.k += 1
+                    for nm, i in self.insps.items():
+                        if nm in self.err:
+                            continue
+                        try:
+                            i.eat_chunk(chunk)
+                        except Exception:
+                            self.err.add(nm)
+                else:
+                    try:
+                        next(self.w)
+                    except StopIteration:
+                        self.w.close()
+                        self.done = True
+
+            def verdicts(self):
+                if via == 'bare':
+                    return {nm: imgsim.verdict(i)
+                            for nm, i in self.insps.items()}
+                d = {nm: imgsim.verdict(i) for nm, i in
+                     imgsim.wrapper_inspectors(self.w).items()}
+                d['wrapper'] = {o_: None for o_ in OBS}
+                d['wrapper']['format_match'] = imgsim.w_format(self.w)
+                d['wrapper']['safety_detail'] = None
+                return d
+        a, b = Stream(data_a, sizes_a), Stream(data_b, sizes_b)
+        rng = random.Random(o['seed'])
+        pat = o['pattern']
+        turn = 0
+        steps = 0
+        while not (a.done and b.done):
+            if a.done:
+                pick = b
+            elif b.done:
+                pick = a
+            elif pat == 'a_then_b':
+                pick = a
+            elif pat == 'b_then_a':
+                pick = b
+            elif pat == 'alternate':
+                pick = a if turn % 2 == 0 else b
+            else:
+                pick = a if rng.random() < 0.5 else b
+            pick.step()
+            turn += 1
+            steps += 1
+            if steps > 5000:
+                raise core.HarnessError('mixed streams: step cap')
+        out = []
+        for tag, st_, solo_ in (('A', a, solo_a), ('B', b, solo_b)):
+            got = st_.verdicts()
+            for nm in sorted(solo_):
+                va, vb = solo_[nm], got.get(nm)
+                if vb is None:
+                    continue
+                obs = [o_ for o_ in OBS if va[o_] != vb[o_]]
+                if obs:
+                    out.append({'cls': 'verdict_depends_on_other_stream',
+                                'detail': {'inspector': nm, 'stream': tag,
+                                           'observable': obs, 'via': via,
+                                           'pattern': pat,
+                                           'alone': {o_: va[o_] for o_ in OBS},
+                                           'together': {o_: vb[o_]
+                                                        for o_ in OBS}}})
+                    break
+        log.add('mixed', via, pat, steps, len(out))
+        return out[:1]
 
     def _run_sched(self, data, s, sizes, with_q, log):
         q = s.get('q') if with_q else None
@@ -488,6 +634,15 @@ class C01(Check):
         if 'engine' in case:
             return
         scheds = case['scheds']
+        if case.get('other'):
+            c = copy.deepcopy(case)
+            del c['other']
+            yield c
+            for pat in ('a_then_b', 'b_then_a'):
+                if case['other']['pattern'] != pat:
+                    c = copy.deepcopy(case)
+                    c['other']['pattern'] = pat
+                    yield c
         # fewer schedules (keep pairs)
         if len(scheds) > 2:
             for j in range(len(scheds) - 1, -1, -1):
